@@ -383,7 +383,8 @@ Print Assumptions c13_amalgamate_join.
    count other than the number of rows, which Python does not): well-formed pieces of
    1 + 2 rows joined under the row count 3 give the CSR matrix; under 4 the function
    returns normally with the pointer array [0; 0; 1; 0; 2], which is not monotone; under 2
-   it returns normally with a row boundary overwritten; under 1 h5py refuses.  Reached
+   it returns normally with a row boundary overwritten; under 1 h5py refuses (TypeError:
+   the clipped slice cannot take the 2-row piece; a clipped 1-row piece is broadcast away).  Reached
    through amalgamate_h5ad(dst_sparse=True) whenever len(dst_obs) is not the number of
    selected rows (the dense destination raises RuntimeError there): reported to the lead
    as a finding candidate (class amalgamate-sparse-rowcount-unchecked), like
